@@ -155,15 +155,30 @@ def wp3(prog):
         def is_base(t, fld):
             t = strip(t)
             return isinstance(t, tuple) and t[0] == "field" and t[2] == fld and mir.is_call(strip(t[1]), "top_state")
-        seeds = {fn.local_name(l): v for (h, l), v in te.mu_init.items() if fn.local_name(l) in ("hash", "new_set")
-                 and strip(v)[0] != "mu"}
-        if not is_base(seeds.get("hash", ()), "hash"):
-            errs.append("the hash accumulator is seeded with %s, not with the base state's hash" % show(seeds.get("hash", ("top",)))[:40])
-        sv = strip(seeds.get("new_set", ("top",)))
-        while mir.is_call(sv, "clone"):
-            sv = strip(sv[2][0])
-        if not is_base(sv, "sat_clauses"):
-            errs.append("the satisfied-set accumulator is seeded with %s, not with the base state's set" % show(sv)[:40])
+        def unclone(v):
+            v = strip(v)
+            while mir.is_call(v, "clone"):
+                v = strip(v[2][0])
+            return v
+        inits = [unclone(v) for (h, l), v in te.mu_init.items() if strip(v)[0] != "mu"]
+        # the accumulator multiplied in the hash updates
+        hacc = set()
+        for cs in te.calls:
+            if cs.callee.name in ("wrapping_mul", "mul"):
+                for x in mir.subterms(cs.args[0]):
+                    if x[0] == "mu":
+                        hacc.add((x[1], x[2]))
+        hseeds = []
+        for (h, l) in hacc:
+            v = te.mu_init.get((h, l))
+            while v is not None and strip(v)[0] == "mu":
+                v = te.mu_init.get((strip(v)[1], strip(v)[2]))
+            if v is not None:
+                hseeds.append(unclone(v))
+        if not hseeds or not all(is_base(v, "hash") for v in hseeds):
+            errs.append("the hash accumulator is seeded with %s, not with the base state's hash" % [show(v)[:40] for v in hseeds])
+        if not any(is_base(v, "sat_clauses") for v in inits):
+            errs.append("no accumulator is seeded with the base state's satisfied set")
         diffs = [cs for cs in te.calls if cs.callee.name == "difference" and "PartialModel" in cs.callee.key()]
         if not diffs:
             errs.append("no difference between the new model and the base model")
